@@ -79,20 +79,26 @@ Proof.
   apply keeps_set_when. intros i Hi. apply close_mono. exact Hi.
 Qed.
 
-Lemma visit_wb_keeps : forall s id x act, keeps s (visit_wb s id x act).
+Lemma touch_wb_keeps : forall s id x act, keeps s (touch_wb s id x act).
 Proof.
-  intros s id x act. unfold visit_wb. destruct (find_wb (ss_wb s) id) as [b|]; [|apply keeps_refl].
-  match goal with |- context [if ?c then _ else _] => destruct c end.
-  - apply keeps_set_when. auto.
-  - match goal with |- context [gc_when ?h ?w ?bb ?g] => destruct (gc_when h w bb g) as [h2 wc] end.
-    apply keeps_set_when. intros i Hi. apply close_mono. exact Hi.
+  intros s id x act. unfold touch_wb. destruct (find_wb (ss_wb s) id) as [b|]; [|apply keeps_refl].
+  apply keeps_set_when. auto.
+Qed.
+
+Lemma complete_wb_keeps : forall s id, keeps s (complete_wb s id).
+Proof.
+  intros s id. unfold complete_wb. destruct (find_wb (ss_wb s) id) as [b|]; [|apply keeps_refl].
+  match goal with |- context [if ?c then _ else _] => destruct c end; [apply keeps_refl|].
+  match goal with |- context [gc_when ?h ?w ?bb ?g] => destruct (gc_when h w bb g) as [h2 wc] end.
+  apply keeps_set_when. intros i Hi. apply close_mono. exact Hi.
 Qed.
 
 Lemma process_when_keeps : forall s act deact, keeps s (process_when s act deact).
 Proof.
-  intros s act deact. unfold process_when.
+  intros s act deact. unfold process_when. cbv zeta.
   eapply keeps_trans; [apply process_when_ctx_keeps|].
-  apply keeps_fold. intros st x. apply keeps_fold. intros st' id. apply visit_wb_keeps.
+  eapply keeps_trans; [|apply keeps_fold; apply complete_wb_keeps].
+  apply keeps_fold. intros st x. unfold touch_state. apply keeps_fold. intros st' id. apply touch_wb_keeps.
 Qed.
 
 (* ---- WhenTime structures *)
